@@ -136,8 +136,22 @@ impl Check for C12 {
         let dir: i64 = if src.bool() { 1 } else { -1 };
         let mut v: Vec<i64> = (0..n as i64).map(|i| dir * i * 3).collect();
         let kind = src.below(5);
-        let pos = if src.chance(2, 3) { n - 1 - src.below((n as u64 / 50).max(1)) as usize } else { src.usize_in(1, n - 1) };
-        let pos = pos.max(1);
+        let pos = match src.below(6) {
+            0 | 1 | 2 => n - 1 - src.below((n as u64 / 50).max(1)) as usize,
+            // block seams: the pair that straddles a multiple of a power of two (chunked / unrolled scans)
+            3 | 4 => {
+                let b = 1usize << src.usize_in(2, 14);
+                let m = (n - 1) / b;
+                if m >= 1 {
+                    obs.class("long:irregularity-at-block-seam");
+                    b * src.usize_in(1, m)
+                } else {
+                    src.usize_in(1, n - 1)
+                }
+            }
+            _ => src.usize_in(1, n - 1),
+        };
+        let pos = pos.clamp(1, n - 1);
         match kind {
             0 => {}
             1 => v[pos] = v[pos - 1],                 // one tie
@@ -164,6 +178,24 @@ impl Check for C12 {
             let f: Vec<f64> = v.iter().map(|&x| x as f64).collect();
             expect("f64", "long", &Array1::from_vec(f.clone()).view(), &f, obs)?;
             expect("i64", "long", &Array1::from_vec(v.clone()).view(), &v, obs)?;
+            // the same relations at magnitudes where neighbouring integers are not distinguishable as f64 / f32
+            let off: i64 = dir * (1i64 << src.usize_in(53, 61));
+            let big: Vec<i64> = (0..n as i64).map(|i| off + dir * i).collect();
+            let mut big = big;
+            match kind {
+                1 => big[pos] = big[pos - 1],
+                2 => big[pos] = big[pos - 1] - dir,
+                3 => {
+                    big[pos] = big[pos - 1];
+                    let p2 = (pos / 2).max(1);
+                    big[p2] = big[p2 - 1] - dir;
+                }
+                _ => {}
+            }
+            obs.class("long:i64-beyond-2^53");
+            expect("i64", "long-large-magnitude", &Array1::from_vec(big.clone()).view(), &big, obs)?;
+            let big32: Vec<i32> = big.iter().take(2000).map(|&b| ((b - off) + dir * ((1i64 << 30) - 5000)) as i32).collect();
+            expect("i32", "long-large-magnitude", &Array1::from_vec(big32.clone()).view(), &big32, obs)?;
             // strided view
             let mut st = vec![0f64; 2 * n];
             for (i, x) in f.iter().enumerate() {
